@@ -132,6 +132,13 @@ def PErr.reason : PErr → Reason
   | .internal _ => .internal
   | _ => .invalidField
 
+instance {ε α : Type} [DecidableEq ε] [DecidableEq α] : DecidableEq (Except ε α) := fun a b =>
+  match a, b with
+  | .ok x, .ok y => if h : x = y then isTrue (by rw [h]) else isFalse (fun e => h (by cases e; rfl))
+  | .error x, .error y => if h : x = y then isTrue (by rw [h]) else isFalse (fun e => h (by cases e; rfl))
+  | .ok _, .error _ => isFalse (fun e => by cases e)
+  | .error _, .ok _ => isFalse (fun e => by cases e)
+
 /-! ### hashes -/
 
 /-- `self._encryption_hash_algorithms.get(h)`: backend hash name and digest size in bytes -/
@@ -206,70 +213,79 @@ structure SigParams where
 def lookupDsa (T : Tables2) (d : Nat) : Option (HashName × Nat) :=
   (T.dsa.lookup d).map (fun r => (r.2.1, r.2.2))
 
-/-- l.1377-1438.  Enumeration members are truthy, so `if x:` is `x is not None`.  A digital signature
+/-- l.1377-1391.  Enumeration members are truthy, so `if x:` is `x is not None`.  A digital signature
 algorithm, when given, REPLACES both the cryptographic and the hashing algorithm of the request (they
 are not compared); an unknown one leaves `(None, None)`. -/
+def signSelect (T : Tables2) (p : SigParams) : Except PErr (Option HashName × Option Nat) :=
+  match p.dsa with
+  | some d =>
+    match lookupDsa T d with
+    | some (hn, a) => .ok (some hn, some a)
+    | none => .ok (none, none)
+  | none =>
+    if p.alg.isSome && p.hash.isSome then .ok ((p.hash.bind (lookupHash T)).map (·.1), p.alg)
+    else .error .signNeedsAlgorithms
+
+/-- l.1393-1438 -/
+def signFinish (T : Tables2) (h : Option HashName) (a : Option Nat) (padding : Option Nat) : Except PErr SigPlan :=
+  match h with
+  | none => .error .signHashUnsupported
+  | some hn =>
+    if a == some rsa then
+      -- the private key is loaded here (failure: Invalid Field, `signKeyFailure`)
+      match padding with
+      | none => .error .signPaddingMissing
+      | some pad =>
+        if pad == padPSS then .ok ⟨.pss, hn⟩
+        else if pad == padPKCS1v15 then
+          -- `padding_method()` with `padding_method = self._asymmetric_padding_methods.get(padding, None)`
+          match T.asymPadding.lookup pad with
+          | some _ => .ok ⟨.pkcs1v15, hn⟩
+          | none => .error (.internal .paddingClassMissing)
+        else .error .signPaddingUnsupported
+    else .error .signNotRsa
+
+/-- `sign`, l.1377-1438 -/
 def signPlan (T : Tables2) (p : SigParams) : Except PErr SigPlan :=
-  let sel : Except PErr (Option HashName × Option Nat) :=
-    match p.dsa with
-    | some d =>
-      match lookupDsa T d with
-      | some (hn, a) => .ok (some hn, some a)
-      | none => .ok (none, none)
-    | none =>
-      if p.alg.isSome && p.hash.isSome then .ok ((p.hash.bind (lookupHash T)).map (·.1), p.alg)
-      else .error .signNeedsAlgorithms
-  match sel with
+  match signSelect T p with
   | .error e => .error e
-  | .ok (h, a) =>
-    match h with
-    | none => .error .signHashUnsupported
-    | some hn =>
-      if a == some rsa then
-        -- the private key is loaded here (failure: Invalid Field, `signKeyFailure`)
-        match p.padding with
-        | none => .error .signPaddingMissing
-        | some pad =>
-          if pad == padPSS then .ok ⟨.pss, hn⟩
-          else if pad == padPKCS1v15 then
-            -- `padding_method()` with `padding_method = self._asymmetric_padding_methods.get(padding, None)`
-            match T.asymPadding.lookup pad with
-            | some _ => .ok ⟨.pkcs1v15, hn⟩
-            | none => .error (.internal .paddingClassMissing)
-          else .error .signPaddingUnsupported
-      else .error .signNotRsa
+  | .ok (h, a) => signFinish T h a p.padding
 
 def signKeyFailure : Reason := .invalidField
 /-- `key.sign(…)` is outside any try block -/
 def signOpFailure : Reason := .internal
 
-/-- l.1486-1572.  The request's algorithms are COMPARED with those of a known digital signature
+/-- l.1486-1516.  The request's algorithms are COMPARED with those of a known digital signature
 algorithm; an unknown one is ignored (the request's own algorithms are used). -/
-def verifyPlan (T : Tables2) (p : SigParams) : Except PErr SigPlan :=
+def verifySelect (T : Tables2) (p : SigParams) : Except PErr (Option HashName × Option Nat) :=
   let hashAlg : Option HashName := (p.hash.bind (lookupHash T)).map (·.1)
-  let pair : Option (HashName × Nat) := p.dsa.bind (lookupDsa T)
-  let sel : Except PErr (Option HashName × Option Nat) :=
-    match pair with
-    | some (dh, da) =>
-      if hashAlg.isSome && hashAlg != some dh then .error .verifyHashMismatch
-      else if p.alg.isSome && p.alg != some da then .error .verifyAlgMismatch
-      else .ok (some dh, some da)
-    | none => .ok (hashAlg, p.alg)
-  match sel with
+  match p.dsa.bind (lookupDsa T) with
+  | some (dh, da) =>
+    if hashAlg.isSome && hashAlg != some dh then .error .verifyHashMismatch
+    else if p.alg.isSome && p.alg != some da then .error .verifyAlgMismatch
+    else .ok (some dh, some da)
+  | none => .ok (hashAlg, p.alg)
+
+/-- l.1518-1572 -/
+def verifyFinish (h : Option HashName) (a : Option Nat) (padding : Option Nat) : Except PErr SigPlan :=
+  if a == some rsa then
+    if padding == some padPSS then
+      match h with
+      | some hn => .ok ⟨.pss, hn⟩
+      | none => .error .verifyPssNeedsHash
+    else if padding == some padPKCS1v15 then
+      -- the public key is loaded, then `public_key.verify(…, hash_algorithm())` inside a try block
+      match h with
+      | some hn => .ok ⟨.pkcs1v15, hn⟩
+      | none => .error .verifyHashMissing
+    else .error .verifyPaddingUnsupported
+  else .error .verifyAlgUnsupported
+
+/-- `verify_signature`, l.1486-1572 -/
+def verifyPlan (T : Tables2) (p : SigParams) : Except PErr SigPlan :=
+  match verifySelect T p with
   | .error e => .error e
-  | .ok (h, a) =>
-    if a == some rsa then
-      if p.padding == some padPSS then
-        match h with
-        | some hn => .ok ⟨.pss, hn⟩
-        | none => .error .verifyPssNeedsHash
-      else if p.padding == some padPKCS1v15 then
-        -- the public key is loaded, then `public_key.verify(…, hash_algorithm())` inside a try block
-        match h with
-        | some hn => .ok ⟨.pkcs1v15, hn⟩
-        | none => .error .verifyHashMissing
-      else .error .verifyPaddingUnsupported
-    else .error .verifyAlgUnsupported
+  | .ok (h, a) => verifyFinish h a p.padding
 
 def verifyKeyFailure : Reason := .cryptographicFailure
 /-- InvalidSignature is the verdict False; every other exception of `verify` is mapped -/
